@@ -42,6 +42,11 @@ def _build_and_run(harness, features, debug_assertions, release, values_path, td
     if miri and "Undefined Behavior" in p.stderr:
         m = re.search(r"error: Undefined Behavior: (.*)", p.stderr)
         return {"exit": 1, "message": "MIRI: Undefined Behavior: " + (m.group(1) if m else "")}
+    if p.returncode in (-6, -11, -4, -7, 134, 139, 132, 135):
+        # the process died from a signal: abort after a panic inside a destructor during unwinding,
+        # segmentation fault, ... — that IS a reproduced symptom (C10 observes process aborts)
+        tail = [l for l in p.stderr.strip().splitlines() if "panicked" in l or "abort" in l.lower() or "signal" in l.lower()]
+        return {"exit": 1, "message": "REPLAY: FAILED: process terminated by a signal (status %s): %s" % (p.returncode, " | ".join(tail[-3:])[:300])}
     if not msg:
         msg = (p.stderr.strip().splitlines() or ["(no output)"])[-1][:300]
     return {"exit": p.returncode, "message": msg}
